@@ -49,7 +49,7 @@ without=$(demo)
 # pinned tests of the touched modules, with the patch applied to /repo (reverted afterwards)
 mods=$(grep '^+++ b/libs/pika/' $P | sed 's|+++ b/libs/pika/\([^/]*\)/.*|\1|' | sort -u | tr '\n' ' ')
 tests="skipped"
-if [ -n "$mods" ] && [ -z "$(git -C /repo status --porcelain --untracked-files=no)" ]; then
+if [ -z "${SKIP_PINNED:-}" ] && [ -n "$mods" ] && [ -z "$(git -C /repo status --porcelain --untracked-files=no)" ]; then
   git -C /repo apply $P 2>/dev/null || git -C /repo apply --3way $P 2>/dev/null
   re=$(for m in $mods; do printf 'tests.headers.modules.%s\\.|' $m; done | sed 's/|$//')
   out=$(ctest --test-dir /repo/_build -j8 --timeout 900 -R "$re" 2>&1 | grep "tests passed" | tail -1)
